@@ -354,7 +354,11 @@ func (r *reader) initNodes(tr io.Reader) error {
 	}
 	md := make(map[uint32]*metadataEntry)
 	st := make(map[int64]map[int64]uint32)
-	if err := r.db.Batch(func(tx *bolt.Tx) (err error) {
+	// NOTE: Don't use db.Batch here. Concurrent Batch calls are combined into one
+	// transaction and when the function of another caller fails, the remaining
+	// functions are executed again. This function can't be executed twice because
+	// it consumes the JSON decoder and fills md and st.
+	if err := r.db.Update(func(tx *bolt.Tx) (err error) {
 		nodes, err := getNodes(tx, r.fsID)
 		if err != nil {
 			return err
